@@ -2,7 +2,7 @@
    today's core/collection/{safemap,cache}.go: re-checked whenever a constant changes. *)
 From Coq Require Import List ZArith Bool Lia.
 From GZgen Require C16Consts.
-From GZ Require Import C16.Model C16.ProofsMap C16.ModelW C16.ProofsW.
+From GZ Require Import C16.Model C16.ProofsMap C16.ModelW C16.ProofsW C16.ProofsWClamp.
 Import ListNotations.
 Open Scope Z_scope.
 
@@ -66,4 +66,26 @@ Proof.
   intros limit mv pre k v d a Hd.
   destruct cache_wheel_params_ok as [Hn Hi].
   apply cache_entry_expires_at_due_tick_proof; assumption.
+Qed.
+
+(* the source today refreshes a rewritten key's timer with SetTimer (repair 9733d1f):
+   the clamped theorems (ProofsWClamp.v) are the ones that apply.  If SetWithExpire goes
+   back to MoveTimer this obligation breaks (and the correspondence finds the lost entry). *)
+Lemma cache_rewrite_uses_set_timer_today : C16Consts.cache_rewrite_uses_move_timer = false.
+Proof. reflexivity. Qed.
+
+Lemma cache_entry_expires_clamped_today : forall limit pre k v d a,
+  let s1 := cw_final (cw_new limit C16Consts.cache_slots C16Consts.cache_wheel_interval_ns
+                             C16Consts.cache_rewrite_uses_move_timer)
+                     (pre ++ [XSet k v d]) in
+  forallb (fun o => negb (xwrites k o)) a = true ->
+  cw_never_evicts s1 k a ->
+  alookup k (cdata (cwc (cw_final s1 a))) =
+  if xticks a <? Z.max d C16Consts.cache_wheel_interval_ns / C16Consts.cache_wheel_interval_ns
+  then Some v else None.
+Proof.
+  intros limit pre k v d a.
+  destruct cache_wheel_params_ok as [Hn Hi].
+  rewrite cache_rewrite_uses_set_timer_today.
+  apply cache_entry_expires_clamped_proof; assumption.
 Qed.
